@@ -360,6 +360,9 @@ def run(ctx):
     for tr, m in L.handover_traces(ctx):
         traces.append(tr)
         metas.append(dict(m, ending="orderly+next-arrives", server="thread", hookraise=False, handover=True))
+    for tr, m in housekeeping_race(ctx, random.Random(ctx.seed + 13)):
+        traces.append(tr)
+        metas.append(m)
     for m in metas:
         ctx.count(json.dumps(m, sort_keys=True))
     for i in (0, len(traces) // 2, len(traces) - 1):
@@ -380,6 +383,75 @@ def run(ctx):
         raise util.MachineryError("vacuity: hooks=%d resource closes=%d over %d traces" % (hooks, rcl, len(traces)))
     ctx.extra["hook_events"] = hooks
     ctx.extra["resource_close_events"] = rcl
+
+
+def housekeeping_race(ctx, rng):
+    """thread-pool server: a connection with an unfinished streamed result that has outlived its lifetime ends while the daemon's
+    periodic housekeeping runs in its own thread; every line of the disconnect handling and of the housekeeping is a switch point"""
+    import os
+    from Pyro5 import server
+    sfile = os.path.abspath(server.__file__)
+
+    def tfilter(code):
+        return os.path.abspath(code.co_filename) == sfile and code.co_name in ("_clientDisconnect", "_housekeeping")
+
+    def once(chooser):
+        out = {}
+
+        def main():
+            sc = S.CUR
+            lab = L.Lab(servertype="thread", poolsize=4)
+            lab.config.ITER_STREAMING = True
+            lab.config.ITER_STREAM_LIFETIME = 1.0
+            lab.config.ITER_STREAM_LINGER = 0.0
+            P = lab.P
+
+            class T(object):
+                def gen(self, n):
+                    return (i for i in range(n))
+            lab.daemon.register(P.expose(T)(), "target")
+            hang = False
+            try:
+                p = P.Proxy(lab.daemon.uriFor("target"))
+                it = p.gen(5)
+                next(it)
+                it.proxy = None
+                sc.sleep(2.0)                 # the stream is past its lifetime now; nobody has removed it yet
+                done = [0]
+
+                def keeper():
+                    try:
+                        lab.daemon._housekeeping()
+                    finally:
+                        done[0] += 1
+                sc.spawn(sc.fresh_name("housekeeper"), keeper)
+                lab.log.append({"e": "Ended", "c": 1})
+                p._pyroRelease()
+                sc.yield_point(lambda: done[0] == 1)
+                sc.quiesce()
+            except S.Hang:
+                hang = True
+            tr = [{"e": "First", "c": 1, "accept": True, "mustreason": False}] + [e for e in lab.log if e["e"] in ("Hook", "Ended")]
+            if not hang:
+                srv = lab.net.socks[lab.base][1]
+                tr.append({"e": "Snap", "c": 1, "srvclosed": bool(srv.closed), "first": "ok", "reason": False, "mustreason": False,
+                           "checkfirst": False, "alive_sessions": 0})
+            tr.append({"e": "End", "slots": lab.server_connections() if not hang else 0, "open": 0, "loop_alive": lab.driver.crashed is None,
+                       "witness_ok": True, "fresh_ok": True, "hang": hang, "streams_left": len(lab.daemon.streaming_responses)})
+            out["tr"] = tr
+            lab.config.ITER_STREAM_LIFETIME = 0.0
+            if not hang:
+                lab.close()
+        memnet.run(main, chooser=chooser, trace_filter=tfilter, max_steps=60000)
+        return out.get("tr") or [{"e": "End", "slots": 0, "open": 0, "loop_alive": True, "witness_ok": True, "fresh_ok": True, "hang": True}]
+    res, seen = [], set()
+    for ch, tr in S.explore(once, max_preemptions=2, limit=ctx.pick(60, 600), rng=rng, random_runs=ctx.pick(20, 200)):
+        ctx.evaluations += 1
+        key = json.dumps(tr, sort_keys=True)
+        if key not in seen:
+            seen.add(key)
+            res.append((tr, {"ending": "release-while-housekeeping", "server": "thread", "hookraise": False, "stream": True, "handover": True}))
+    return res
 
 
 def replay(ctx, path):
